@@ -88,6 +88,12 @@ CFG = dict(
              "refinement fine_refines_atomic, which uses mutual exclusion); that the Go functions ARE such clients — every access to shared "
              "state between Lock and Unlock, micro-steps composing to the sequential effect (programs_correct: artifactTrace splits "
              "process() of the producer one level deep) — rests on the regenerated lock facts (syntactic) and the correspondence, not on a semantics of Go",
+             "UpdateParameter / ParameterData are ONE atomic step in every model (their program is seqStep by definition, and FStep.finish takes the "
+             "response by definition); in Go UpdateParameter is several steps under the lock (Parameter map scan, ApplyMessage, incModelVersion) — "
+             "covered by the lock facts (all three are accesses under the lock) and the correspondence, not by a micro-step theorem",
+             "rejected messages: Call.updateRejected answers err and leaves the graph unchanged; that UpdateParameter still bumps the instance's model "
+             "version after a rejected message (instance.go:440-442) is outside the model state — the driver mirrors it (mv compared after every "
+             "sequential call); undecodable messages are sent only in the sequential families (c13.seq, c13.http.seq), not in the concurrent ones",
              "`Linearization` itself does not demand a well-formed history; executions of the model produce well-formed ones, and for recorded "
              "histories checkWitness (wfHist) enforces it",
              "the HTTP layer is not MODELLED but EXERCISED: the real edit server (generator.App.Run edit) is driven in-process — parameter-value and "
@@ -135,7 +141,7 @@ CFG = dict(
              "theorem. That the Go functions are clients of the fine-grained model (all shared-state accesses between Lock and Unlock; their "
              "steps compose to the sequential operation) rests on the lock facts plus correspondence, not on a Go semantics; the split of "
              "process() into micro-steps is one level deep. artifact_snapshot inherits C11's guard (acyclic graph) and holds for every "
-             "processor; the micro-step programs (artifactTrace) are those of all-reading processors. The HTTP layer is exercised (parameter/producer endpoints), not modelled; graph edits concurrent with the "
+             "processor; programs_correct covers Artifact for any pull strategy; UpdateParameter / ParameterData are single model steps. The HTTP layer is exercised (parameter/producer endpoints), not modelled; graph edits concurrent with the "
              "three calls are not modelled. A genuine race found this way (hub goroutine reading the model version "
              "unlocked) was fixed in /repo (899edf1); the race extra covers the server's hub goroutine. If loopback is unavailable the HTTP "
              "families are skipped with a note (http.unavailable) in the evidence. Value semantics of returned results (no aliasing with buffers a later update writes) is a tested "
